@@ -44,6 +44,16 @@ chk("C12", "model_checking",
     "exhaustive perturbation x batch enumeration with reference-run oracle and directory snapshots", "3/C12")
 
 
+chk("C11", "model_checking",
+    "History explorer over file sequences on the real binary: a 42-file alphabet of pokers/sensors for the process-global state "
+    "(disabled regions, #pragma asm, CRLF/CR, BOM/UTF-16, ObjC tokens under -l, Qt macros, include sorting, include guards, files ending "
+    "inside a construct, one file per language ...); all ordered pairs (quick) and all ordered triples over the 20 most state-heavy "
+    "files (thorough) x {-l absent, C, CPP, OC} x delivery {--prefix, -F list, --replace --no-backup, --check} x 2 configurations; "
+    "every file of every batch is compared byte for byte with its own single-file invocation.",
+    "the alphabet is hand-built per global (a poker without a matching sensor shows nothing); reference = same binary, single file",
+    "explicit enumeration of all file histories up to length 2/3 with single-run reference oracle", "3/C11")
+
+
 def main():
     commits = subprocess.run(["git", "-C", "/repo", "log", "--format=%h %s"], stdout=subprocess.PIPE, text=True).stdout.splitlines()
     hooks = [c.split()[0] for c in commits if c.split(" ", 1)[1].startswith("verif hook:")]
